@@ -222,6 +222,32 @@ def for_with_invariant(interp, node, frame, lc, key, it):
         raise Unsupported('for-loop invariant over a partially materialised list')
     if node.orelse:
         raise Unsupported('for ... else with an invariant')
+    # soundness of the havoc set: the body may only change local names (attribute / item stores and calls of mutating methods would change
+    # state the invariant rule does not havoc) - unless the contract lists the path under `modifies`
+    for st in node.body:
+        for sub in ast.walk(st):
+            if isinstance(sub, (ast.Attribute, ast.Subscript)) and isinstance(sub.ctx, (ast.Store, ast.Del)):
+                path = ast.unparse(sub)
+                if path not in lc.modifies:
+                    raise Unsupported('loop body assigns %s: not covered by the for-loop invariant rule (list it under modifies)' % path)
+            if isinstance(sub, ast.Call) and isinstance(sub.func, ast.Attribute) and sub.func.attr in (
+                    'append', 'extend', 'insert', 'pop', 'remove', 'clear', 'update', 'add', 'discard', 'sort', 'reverse', 'setdefault', 'popitem'):
+                raise Unsupported('loop body calls the mutating method .%s(): not covered by the for-loop invariant rule' % sub.func.attr)
+    # the loop variable is not defined by this rule after the loop: refuse functions that read it there
+    if isinstance(node.target, ast.Name) and frame.func is not None:
+        from .interp import func_ast
+        fn = func_ast(frame.func)
+        end = getattr(node, 'end_lineno', node.lineno)
+        for sub in ast.walk(fn):
+            if isinstance(sub, ast.Name) and sub.id == node.target.id and isinstance(sub.ctx, ast.Load) and sub.lineno > end:
+                # a later loop re-binding the same name before the read is fine: only reads that are not inside a later for over the same target
+                rebinding = [l for l in ast.walk(fn) if isinstance(l, ast.For) and isinstance(l.target, ast.Name) and l.target.id == sub.id
+                             and l.lineno > end and l.lineno <= sub.lineno <= getattr(l, 'end_lineno', l.lineno)]
+                comp = [c for c in ast.walk(fn) if isinstance(c, (ast.ListComp, ast.GeneratorExp, ast.SetComp, ast.DictComp))
+                        and c.lineno <= sub.lineno <= getattr(c, 'end_lineno', c.lineno)
+                        and any(isinstance(g.target, ast.Name) and g.target.id == sub.id for g in c.generators)]
+                if not rebinding and not comp:
+                    raise Unsupported('loop variable %s is read after the loop' % sub.id)
     name = '%s#loop%d' % (key[0], key[1])
     kname = lc.index or 'k'
     n = it.n
